@@ -6,3 +6,7 @@ using BunH = Bundle<Eigen::Vector3d, Bundle<SE2d, Bundle<SO3d, Eigen::Vector2d>>
 REG_C16(SE33d, SE33d);
 REG_C16(BunG, BunG);
 REG_C16(BunH, BunH);
+using Bun6 = Bundle<SO2d, Eigen::Vector2d, SO3d, C1d, SE2d, Eigen::Matrix<double, 1, 1>>;
+using BunL = Bundle<SE2f, SE2f, Bundle<SO3f, Eigen::Vector2f>>;
+REG_C16(Bun6, Bun6);
+REG_C16(BunL, BunL);
